@@ -494,10 +494,16 @@ fn run_step(st: &mut State, step: &Value) -> Value {
         // ---- differentiable operations
         "add" | "sub" | "mul" | "div" | "axpy" | "neg" | "scale" | "scale_l" | "powf" | "recip" | "ln" | "exp"
         | "sum" | "reshape" | "matmul" | "conv" | "relu" | "sigmoid" | "softmax" | "cadd" | "cmul" | "csq"
-        | "cfma" => {
+        | "cfma" | "clib" => {
             let log = Rc::clone(&st.log);
             newh = st.with_args(&args, |xs| {
                 guarded!(match op.as_str() {
+                    // a user operation WITHOUT a derivative of its own whose forward closure is written with the
+                    // library's differentiable operations (x0 * x0 + x1): it relies on the recorded graph
+                    "clib" => {
+                        let f: ForwardOp = Rc::new(|x: &[&Array]| &(x[0] * x[0]) + x[1]);
+                        Array::op(&[xs[0], xs[1]], f, None)
+                    }
                     "add" => xs[0] + xs[1],
                     "sub" => xs[0] - xs[1],
                     "mul" => xs[0] * xs[1],
